@@ -688,7 +688,13 @@ class QuantityMachine(Machine):
         for i, e in enumerate(self.pool):
             if i == target:
                 continue
-            after = snap(e["q"], deep=True)
+            try:
+                after = snap(e["q"], deep=True)
+            except Exception as ex:
+                raise Violation("operand_unreadable",
+                                {"operation": what, "member": i, "before": show(before[i]),
+                                 "error": [type(ex).__name__, repr(ex.args)[:200]]},
+                                signature=f"C07/unreadable/{what}")
             if not same_snap(before[i], after):
                 roles = self._roles(op, i)
                 relation = self._relation_c07(op, i)
